@@ -3,6 +3,8 @@
 package h
 
 import (
+	"runtime"
+	"sync/atomic"
 	"bufio"
 	"crypto/sha256"
 	"encoding/hex"
@@ -298,6 +300,8 @@ type Ctx struct {
 	Prop      string
 	Tier      string
 	Seed      uint64
+	lastBeat  int64
+	lastLabel atomic.Value
 	R         *Rand
 	O         *Oracle
 	ReplayDir string
@@ -333,7 +337,37 @@ func (c *Ctx) N(quick, thorough int) int {
 
 // Case accounts for one executed case. bucket goes to the distribution histogram;
 // canonical identifies the case for the distinct count; nontrivial per the property's rule.
+// beat records progress for the watchdog.
+func (c *Ctx) beat(label string) {
+	atomic.StoreInt64(&c.lastBeat, time.Now().UnixNano())
+	if label != "" {
+		c.lastLabel.Store(label)
+	}
+}
+
+// StartWatchdog: when the driver makes no progress (no Case / Eq / Hold) for `stall`, onStall is called once with a
+// report naming the last completed case and the goroutines that are stuck. A library call that never returns — a
+// deadlock, a lost wake-up, an endless loop — thus ends the run with a violation instead of hanging the check.
+func (c *Ctx) StartWatchdog(stall time.Duration, onStall func(report string)) {
+	c.beat("(start)")
+	go func() {
+		for {
+			time.Sleep(2 * time.Second)
+			idle := time.Since(time.Unix(0, atomic.LoadInt64(&c.lastBeat)))
+			if idle < stall {
+				continue
+			}
+			last, _ := c.lastLabel.Load().(string)
+			buf := make([]byte, 1<<20)
+			buf = buf[:runtime.Stack(buf, true)]
+			onStall(fmt.Sprintf("no progress for %.0f s after case: %s\n\n%s", idle.Seconds(), trunc(last, 600), trunc(string(buf), 12000)))
+			return
+		}
+	}()
+}
+
 func (c *Ctx) Case(bucket, canonical string, nontrivial bool) {
+	c.beat(bucket + " :: " + trunc(canonical, 300))
 	c.Evaluations++
 	c.Dist[bucket]++
 	if nontrivial {
